@@ -5,8 +5,9 @@ stamp to a 10 MHz count relative to the start of the year, in binary64 arithmeti
 Model: lean/Acra/Model/PTPToRtc.lean (calendar of Model.Ch11TimeFmt + the exact binary64 model Py.Float.rne);
 line-protocol function `ptp.to_rtc <seconds> <nanoseconds>`; theorems: lean/Acra/Props/C15/ToRtc.lean.
 
-What holds (and is checked by the oracle on the real code): on the exactness domain of the theorem —
-`S·10^7 + ns//100 < 4.5·10^13`, S = seconds since the start of the year — the result is `S·10^7 + ns//100`.
+What holds (and is checked by the oracle on the real code): on the exactness domain of the theorems —
+`S·10^7 + ns//100 < 4.5·10^13` for every rounding with the two binary64 facts, `S·10^7 + ns//100 + 1 <= 2^47` with
+`ns < 2^32` for binary64 itself (sharp), S = seconds since the start of the year — the result is `S·10^7 + ns//100`.
 Outside it the result is one tick too large for some inputs (fraction .99 from 2^47 ticks, .97–.99 from 2^48) and
 it exceeds 48 bits from 22 November on: OBSERVATIONS (evidence notes), not failures — C15 does not speak of `to_rtc`."""
 import calendar, time
@@ -20,7 +21,8 @@ def _to_rtc(seconds, nanoseconds):
 
 FUNCS["ptp.to_rtc"] = _to_rtc
 
-DOMAIN = 45000000000000           # the bound of Props/C15/ToRtc.lean `to_rtc_exact`
+DOMAIN = 45000000000000           # the bound of Props/C15/ToRtc.lean `to_rtc_exact` (every rounding with the two facts)
+DOMAIN_EXEC = 2 ** 47             # `to_rtc_exact_exec_sharp`: binary64 itself, ns < 2^32, ticks + 1 <= 2^47
 MODEL_MAX_SECONDS = 2 ** 40       # beyond, CPython's fromtimestamp raises OSError / OverflowError instead of ValueError
 
 def year_start(y):
@@ -35,7 +37,7 @@ NS_EDGE = [0, 1, 49, 50, 96, 97, 98, 99, 100, 101, 199, 999999899, 999999900, 99
            10 ** 9, 10 ** 9 + 99, 2 ** 32 - 1]
 S_EDGE = [0, 1, 59, 60, 3599, 3600, 86399, 86400, 4499999, 4500000, 4500001,
           7036874, 7036875,                     # 2^46 ticks
-          14073748, 14073749,                   # 2^47 ticks: first second with an off-by-one at .99
+          14073747, 14073748, 14073749,         # 2^47 ticks: first second with an off-by-one at .99
           28147497, 28147498,                   # 2^48 ticks: the 48-bit counter overflows; .97-.99 round up
           31535999, 31536000, 31622399]
 
@@ -60,7 +62,9 @@ def stamps(rng, n):
         ns = rng.choice(NS_EDGE) if r < 0.3 else (100 * rng.randrange(0, 10 ** 7) + rng.choice([0, 1, 50, 96, 97, 98, 99])
                                                   if r < 0.7 else rng.randrange(0, 2 ** 32))
         out.append((s, ns))
-    out += [(253402300799, 999999999), (253402300800, 0), (253402300800 + 86400 * 400, 5), (2 ** 40 - 1, 1)]
+    y24 = year_start(2024)
+    out += [(y24 + 14073748, 835532700), (y24 + 14073748, 835532699), (y24 + 14073748, 835532799), (y24 + 14073748, 835532899),
+            (253402300799, 999999999), (253402300800, 0), (253402300800 + 86400 * 400, 5), (2 ** 40 - 1, 1)]
     return out
 
 def corr_C15(ctx):
@@ -72,7 +76,7 @@ def check_to_rtc(args):
     got = _to_rtc(s, ns)
     S = since_year_start(s)
     want = S * 10 ** 7 + ns // 100
-    if want < DOMAIN and got != want:
+    if (want < DOMAIN or (want + 1 <= DOMAIN_EXEC and ns < 2 ** 32)) and got != want:
         return "PTPTime(%d, %d).to_rtc() = %d, but second %d of the year and %d ns are %d ticks of 100 ns" % (
             s, ns, got, S, ns, want)
     return None
@@ -91,7 +95,7 @@ def oracles_C15(ctx, hints):
             break
         S = since_year_start(s)
         want = S * 10 ** 7 + ns // 100
-        if want >= DOMAIN:
+        if not (want < DOMAIN or (want + 1 <= DOMAIN_EXEC and ns < 2 ** 32)):
             total_out += 1
             got = _to_rtc(s, ns)
             if got != want:
